@@ -22,7 +22,7 @@ TInit == /\ l = 1
          /\ desired = [chains |-> <<>>, ins |-> <<>>, app |-> <<>>]
          /\ kernel = <<>>
          /\ belief = [stale |-> TRUE, due |-> TRUE]
-         /\ phase = [inApply |-> FALSE, readFailed |-> FALSE, envFail |-> FALSE]
+         /\ phase = [inApply |-> FALSE, readFailed |-> FALSE, envFail |-> FALSE, notified |-> FALSE, consistent |-> TRUE]
          /\ known = {}
 
 TReset       == IsEvent("reset") /\ P!Reset(TCfg(Cur.cfg), Cur.kernel)
